@@ -502,8 +502,13 @@ func normalizeValue(
 
 		return normalizeStructValue(opts, ctx, v)
 	default:
-		if v.IsNil() {
-			return &cfgNil{cfgPrimitive{ctx, opts.meta}}, nil
+		// only chan, func and unsafe pointer kinds are left that can be nil;
+		// IsNil panics for every other kind (complex numbers, uintptr)
+		switch v.Kind() {
+		case reflect.Chan, reflect.Func, reflect.Interface, reflect.Ptr, reflect.UnsafePointer:
+			if v.IsNil() {
+				return &cfgNil{cfgPrimitive{ctx, opts.meta}}, nil
+			}
 		}
 		return nil, raiseUnsupportedInputType(ctx, opts.meta, v)
 	}
